@@ -45,20 +45,14 @@ theorem subOk_wf (fQ1 : Nat) (s : Sub) (h : subOk fQ1 s = true) : WFSub s := by
     · exact ⟨this.2.1, this.2.2.1⟩
 
 theorem oracleOk_spec (c : Cfg) (o : CallOr) (h : oracleOk c o = true) :
-    WF o ∧ Coherent c o ∧ (o.mode ≠ .celt → ∀ s ∈ o.subs, subOk (subQ1 c o.mode) s = true) := by
-  simp only [oracleOk, Bool.and_eq_true, Bool.or_eq_true, bne_iff_ne, ne_eq, beq_iff_eq, List.all_eq_true,
-    Bool.not_eq_true'] at h
-  obtain ⟨⟨h1, h2⟩, h3⟩ := h
+    WF o ∧ (o.mode ≠ .celt → ∀ s ∈ o.subs, subOk (subQ1 c o.mode) s = true) := by
+  simp only [oracleOk, shapeOk, Bool.and_eq_true, Bool.or_eq_true, bne_iff_ne, ne_eq, beq_iff_eq, List.all_eq_true] at h
+  obtain ⟨h1, h2⟩ := h
   have hsub : o.mode ≠ .celt → ∀ s ∈ o.subs, subOk (subQ1 c o.mode) s = true := by
     intro hm; rcases h2 with h2 | h2
     · exact absurd h2 hm
     · exact h2
-  refine ⟨⟨h1, fun hm s hs => subOk_wf _ s (hsub hm s hs)⟩, ?_, hsub⟩
-  intro hv hsil
-  rcases h3 with (h3 | h3) | h3
-  · simp [h3.1, h3.2] at hv
-  · rw [hsil] at h3; cases h3
-  · exact h3
+  exact ⟨⟨h1, fun hm s hs => subOk_wf _ s (hsub hm s hs)⟩, hsub⟩
 
 /-! ### Runs of calls -/
 
@@ -122,7 +116,7 @@ theorem frameFlags_generalised_all (useDtx isSil : Bool) (mode : Mode) (fQ1 : Na
     have hflag : (frameStep useDtx isSil mode fQ1 (tc && os.isEmpty) st o).2.1 = true := hall _ (by simp)
     have hg := frameStep_generalised useDtx isSil mode fQ1 (tc && os.isEmpty) st o hs
     rw [hflag] at hg
-    by_cases hc : useDtx = true ∧ (o.valid = true ∨ isSil = true)
+    by_cases hc : useDtx = true
     · rw [if_pos hc, if_pos hc] at hg
       have h1 := decideDtx_true_nb _ _ _ hg.1.symm
       have h2 := (decideDtx_true_iff _ _ _).1 hg.1.symm
@@ -130,13 +124,13 @@ theorem frameFlags_generalised_all (useDtx isSil : Bool) (mode : Mode) (fQ1 : Na
       by_cases hos : os = []
       · subst hos
         simp only [frameFlags, List.length_cons, List.length_nil]
-        refine ⟨hc.1, by rw [hnb]; omega, h2.2.1, by omega⟩
+        refine ⟨hc, by rw [hnb]; omega, h2.2.1, by omega⟩
       · have := ih (frameStep useDtx isSil mode fQ1 (tc && os.isEmpty) st o).1
           (by rw [frameStep_silkUseDtx]; exact hs) hos (fun d hd => hall d (by simp [hd]))
         rw [hnb] at this
         have hm : (os.length + 1) * fQ1 = os.length * fQ1 + fQ1 := Nat.succ_mul ..
         simp only [List.length_cons]
-        refine ⟨hc.1, by rw [this.2.1]; omega, h2.2.1, by omega⟩
+        refine ⟨hc, by rw [this.2.1]; omega, h2.2.1, by omega⟩
     · rw [if_neg hc] at hg; exact absurd hg.1 (by simp)
 
 /-- One DTX packet under the generalised detector: the detector did not change at this call (the
@@ -285,7 +279,7 @@ theorem frameSilk_zero_count (mode : Mode) (act : Int) (st : St) (o : Sub) (fQ1 
     cases h
 
 theorem frameFlags_silk_count (useDtx : Bool) (mode : Mode) (fQ1 : Nat) (tc : Bool) (st : St) (os : List Sub)
-    (hm : mode ≠ .celt) (hv : ∀ s ∈ os, s.valid = false) (hok : ∀ s ∈ os, subOk fQ1 s = true)
+    (hm : mode ≠ .celt) (hsd : st.silkUseDtx = true) (hok : ∀ s ∈ os, subOk fQ1 s = true)
     (hall : ∀ d ∈ (frameFlags useDtx false mode fQ1 tc st os).2, d = true) :
     ∃ k, os.length * fQ1 ≤ 40 * k ∧ (frameFlags useDtx false mode fQ1 tc st os).1.silk.c0 = st.silk.c0 + k ∧
       (os ≠ [] → nbSpeechFramesBeforeDtx ≤ st.silk.c0 ∧ st.silk.c0 + k ≤ nbSpeechFramesBeforeDtx + maxConsecutiveDtx) := by
@@ -294,10 +288,10 @@ theorem frameFlags_silk_count (useDtx : Bool) (mode : Mode) (fQ1 : Nat) (tc : Bo
   | cons o os ih =>
     simp only [frameFlags] at hall ⊢
     have hflag : (frameStep useDtx false mode fQ1 (tc && os.isEmpty) st o).2.1 = true := hall _ (by simp)
-    have hA := frameStep_silk_regime useDtx mode fQ1 (tc && os.isEmpty) st o (hv o (by simp)) hflag
+    have hA := frameStep_silk_charge useDtx false mode fQ1 (tc && os.isEmpty) st o hsd hflag
     obtain ⟨k1, hk1, hc1, hlo, hhi⟩ := frameSilk_zero_count mode _ st o fQ1 hm (hok o (by simp)) hA.1
     obtain ⟨k2, hk2, hc2, hrest⟩ := ih (frameStep useDtx false mode fQ1 (tc && os.isEmpty) st o).1
-      (fun s hs => hv s (by simp [hs])) (fun s hs => hok s (by simp [hs])) (fun d hd => hall d (by simp [hd]))
+      (by rw [frameStep_silkUseDtx]; exact hsd) (fun s hs => hok s (by simp [hs])) (fun d hd => hall d (by simp [hd]))
     have hst : (frameStep useDtx false mode fQ1 (tc && os.isEmpty) st o).1.silk.c0 = st.silk.c0 + k1 := by
       rw [hA.2]; exact hc1
     rw [hst] at hc2
@@ -321,7 +315,7 @@ theorem encodeCall_silk_dtx (c : Cfg) (st : St) (o : CallOr) (hg : GoodGeom c) (
       nbSpeechFramesBeforeDtx ≤ st.silk.c0 ∧ st.silk.c0 + k ≤ nbSpeechFramesBeforeDtx + maxConsecutiveDtx ∧
       sdtxOf c o = st.silkUseDtx := by
   obtain ⟨hr, hlen⟩ := encodeCall_dtx_regular c st o n hpkt
-  obtain ⟨hwf, hco, hsub⟩ := oracleOk_spec c o hok
+  obtain ⟨hwf, hsub⟩ := oracleOk_spec c o hok
   have hreg := encodeCall_regular c st o hr hlen
   rw [hreg.2] at hpkt
   obtain ⟨hne, hall⟩ := pktOf_dtx _ _ _ (finalPkt_dtx _ _ _ _ hpkt)
@@ -332,16 +326,16 @@ theorem encodeCall_silk_dtx (c : Cfg) (st : St) (o : CallOr) (hg : GoodGeom c) (
     unfold encodeLoop
     rw [h0] at this ⊢
     simpa using this
+  have hs0 : (prepCall c st o).silkUseDtx = true := by rw [prepCall_silkUseDtx]; exact hsk
   unfold SilkCall at hsk
   simp only [Bool.and_eq_true, Bool.not_eq_true', Bool.or_eq_false_iff] at hsk
   obtain ⟨hd, hv0, hsil⟩ := hsk
-  have hval := hco hv0 hsil
   unfold encodeLoop at hall
   rw [hsil] at hall
-  have hC := frameFlags_silk_regime c.useDtx o.mode (subQ1 c o.mode) o.toCelt (prepCall c st o) o.subs hsne hval hwf.2 hall
+  have hC := frameFlags_silk_regime c.useDtx o.mode (subQ1 c o.mode) o.toCelt (prepCall c st o) o.subs hsne hs0 hwf.2 hall
   simp only at hC
   have hm := hC.1
-  obtain ⟨k, hk, hc, hb⟩ := frameFlags_silk_count c.useDtx o.mode (subQ1 c o.mode) o.toCelt (prepCall c st o) o.subs hm hval
+  obtain ⟨k, hk, hc, hb⟩ := frameFlags_silk_count c.useDtx o.mode (subQ1 c o.mode) o.toCelt (prepCall c st o) o.subs hm hs0
     (hsub hm) hall
   have hb := hb hsne
   -- the SILK state was neither re-initialised nor cleared by a change of detector at this call (its
@@ -471,13 +465,13 @@ theorem run_inDtx (c : Cfg) : ∀ (ors : List CallOr) (st : St), Inv st → (∀
   | nil => intro st _ _ x hx; cases hx
   | cons o os ih =>
     intro st hinv hok x hx hd
-    obtain ⟨hwf, hco, _⟩ := oracleOk_spec c o (hok o (by simp))
+    obtain ⟨hwf, _⟩ := oracleOk_spec c o (hok o (by simp))
     rw [run_cons] at hx
     rcases List.mem_cons.1 hx with rfl | hx
     · obtain ⟨n, hn⟩ := hd
       simp only at hn ⊢
       obtain ⟨hr, hlen⟩ := encodeCall_dtx_regular c st o n hn
-      exact inDtx_of_dtx c st o hr hlen hinv hwf hco n hn
+      exact inDtx_of_dtx c st o hr hlen hinv hwf n hn
     · exact ih _ (inv_encodeCall c st o hinv hwf) (fun o' ho' => hok o' (by simp [ho'])) x hx hd
 
 /-! ### DTX disabled along a run -/
@@ -523,41 +517,48 @@ theorem frameSilk_zero_low (mode : Mode) (act : Int) (st : St) (o : Sub) (ha : a
     simp only [silkCall, Bool.and_eq_true] at hz
     exact silkFrames_inDtx_imp_low _ _ _ hz.1
 
-/-- **Resume under SILK's own DTX**: if in some coded frame of the call SILK's VAD marks a frame of the
-    mid channel active, the packet is a normal one. -/
-theorem encodeCall_silk_active (c : Cfg) (st : St) (o : CallOr) (hok : oracleOk c o = true) (hsk : SilkCall c o)
-    (hact : ∃ s ∈ o.subs, ∃ m, s.silk.getLast? = some m ∧ ∃ f ∈ m.frames, f.low0 = false) (n : Nat) :
+/-- Under SILK's own DTX, if every coded frame of the loop is dropped then every one was dropped by SILK
+    (from some state). -/
+theorem frameFlags_silk_each (useDtx : Bool) (mode : Mode) (fQ1 : Nat) (tc : Bool) :
+    ∀ (os : List Sub) (st0 : St), st0.silkUseDtx = true →
+      (∀ d ∈ (frameFlags useDtx false mode fQ1 tc st0 os).2, d = true) →
+      ∀ s ∈ os, ∃ st', (frameSilk mode (activityOf false s.valid s.det) st' s).2 = some true := by
+  intro os
+  induction os with
+  | nil => intro _ _ _ s hs; cases hs
+  | cons o' os' ih =>
+    intro st0 hsd hall s hs
+    simp only [frameFlags] at hall
+    have hflag := hall _ (List.mem_cons_self ..)
+    have hA := frameStep_silk_charge useDtx false mode fQ1 (tc && os'.isEmpty) st0 o' hsd hflag
+    rcases List.mem_cons.1 hs with rfl | hs
+    · exact ⟨st0, hA.1⟩
+    · exact ih _ (by rw [frameStep_silkUseDtx]; exact hsd) (fun d hd => hall d (List.mem_cons_of_mem _ hd)) s hs
+
+/-- **Resume under SILK's own DTX**: if in some coded frame of the call for which Opus did not force
+    "no activity" (its analysis result is not valid, or the detector judged it active) SILK's VAD marks
+    a frame of the mid channel active, the call does not return a DTX packet. -/
+theorem encodeCall_silk_active (c : Cfg) (st : St) (o : CallOr) (hsk : SilkCall c o)
+    (hact : ∃ s ∈ o.subs, (s.valid = true → s.det = true) ∧ ∃ m, s.silk.getLast? = some m ∧ ∃ f ∈ m.frames, f.low0 = false) (n : Nat) :
     (encodeCall c st o).2.1 ≠ Pkt.dtx n := by
   intro hpkt
   obtain ⟨hr, hlen⟩ := encodeCall_dtx_regular c st o n hpkt
-  obtain ⟨hwf, hco, _⟩ := oracleOk_spec c o hok
   have hreg := encodeCall_regular c st o hr hlen
   rw [hreg.2] at hpkt
   obtain ⟨_, hall⟩ := pktOf_dtx _ _ _ (finalPkt_dtx _ _ _ _ hpkt)
+  have hs0 : (prepCall c st o).silkUseDtx = true := by rw [prepCall_silkUseDtx]; exact hsk
   unfold SilkCall at hsk
   simp only [Bool.and_eq_true, Bool.not_eq_true', Bool.or_eq_false_iff] at hsk
   obtain ⟨_, hv0, hsil⟩ := hsk
-  have hval := hco hv0 hsil
   unfold encodeLoop at hall
   rw [hsil] at hall
-  obtain ⟨s, hs, m, hm, f, hf, hlow⟩ := hact
-  -- every coded frame was dropped by SILK, with activity = VAD_NO_DECISION
-  have key : ∀ (os : List Sub) (st0 : St), (∀ s ∈ os, s.valid = false) →
-      (∀ d ∈ (frameFlags c.useDtx false o.mode (subQ1 c o.mode) o.toCelt st0 os).2, d = true) →
-      ∀ s ∈ os, ∃ m, s.silk.getLast? = some m ∧ ∀ f ∈ m.frames, f.low0 = true := by
-    intro os
-    induction os with
-    | nil => intro _ _ _ s hs; cases hs
-    | cons o' os' ih =>
-      intro st0 hv hall s hs
-      simp only [frameFlags] at hall
-      have hflag := hall _ (List.mem_cons_self ..)
-      have hA := frameStep_silk_regime c.useDtx o.mode (subQ1 c o.mode) _ st0 o' (hv o' (by simp)) hflag
-      rcases List.mem_cons.1 hs with rfl | hs
-      · refine frameSilk_zero_low o.mode _ st0 s ?_ hA.1
-        simp [activityOf, hv s (by simp), vadNoDecision, vadNoActivity]
-      · exact ih _ (fun s hs => hv s (by simp [hs])) (fun d hd => hall d (List.mem_cons_of_mem _ hd)) s hs
-  obtain ⟨m', hm', hall'⟩ := key o.subs (prepCall c st o) hval hall s hs
+  obtain ⟨s, hs, hdet, m, hm, f, hf, hlow⟩ := hact
+  obtain ⟨st', hz⟩ := frameFlags_silk_each c.useDtx o.mode (subQ1 c o.mode) o.toCelt o.subs (prepCall c st o) hs0 hall s hs
+  have ha : activityOf false s.valid s.det ≠ vadNoActivity := by
+    cases hv : s.valid
+    · simp [activityOf, vadNoDecision, vadNoActivity]
+    · simp [activityOf, hdet hv, vadNoActivity]
+  obtain ⟨m', hm', hall'⟩ := frameSilk_zero_low o.mode _ st' s ha hz
   rw [hm] at hm'
   cases hm'
   have := hall' f hf
@@ -667,6 +668,13 @@ def cfg60 : Cfg := { cfg with fs := 48000, q := 24 }
 def silent60 : CallOr :=
   { digSil := true, valid0 := false, mode := .celt, toCelt := false,
     subs := List.replicate 3 { valid := false, det := false, silk := [] } }
+/-- Hybrid 60 ms packets (3 x 20 ms) whose call-level analysis result is not valid while the first and
+    third coded frame have a valid one saying "inactive" (what one NaN sample per packet produces). -/
+def cfgHyb : Cfg := { cfg with fs := 24000, q := 24, userBitrate := 20000 }
+def nanPkt : CallOr :=
+  { digSil := false, valid0 := false, mode := .hybrid, toCelt := false,
+    subs := [{ valid := true, det := false, silk := [silkMain true] }, { valid := false, det := false, silk := [silkMain true] },
+             { valid := true, det := false, silk := [silkMain true] }] }
 /-- Speech whose SILK payload exceeds the frame budget (the bust branch). -/
 def speechBust : CallOr :=
   { digSil := false, valid0 := true, mode := .silk, toCelt := false,
